@@ -42,3 +42,17 @@ package format
 //@   nosafety
 //@   ensures null: literal.Null ==> result == nil && out(builder) == strcat2(old(out(builder)), "null")
 //@   ensures quoted: !literal.Null && literal.CastType != pgsql.Interval && typeof(literal.Value) == string ==> result == nil && out(builder) == strcat2(strcat2(strcat2(old(out(builder)), "'"), replaceAll(literal.Value.(string), "'", "''")), "'")
+
+// quoteAlias: the one position where a user-chosen name reaches the statement as an identifier. What it returns is
+// the name itself or dq(x) = '"' ++ replaceAll(x, '"', '""') ++ '"' for x the name or the name with its Cypher
+// backticks removed - the quoting PostgreSQL's scanner inverts for delimited identifiers.
+//@ pure func dq(x string) string { "\"" + replaceAll(x, "\"", "\"\"") + "\"" }
+// plainAt: byte i of s is a letter, an underscore or (not in first position) a digit - the characters PostgreSQL
+// accepts in an identifier written without quotes (95 '_', 97..122 a-z, 65..90 A-Z, 48..57 0-9).
+//@ pure func plainAt(s string, i int) bool { s[i] == 95 || (97 <= s[i] && s[i] <= 122) || (65 <= s[i] && s[i] <= 90) || (48 <= s[i] && s[i] <= 57 && i > 0) }
+//@ func quoteAlias(alias pgsql.Identifier) string
+//@   nomod
+//@   nosafety
+//@   ensures shape: (result == alias && len(alias) > 0 && (forall i int :: {:pattern alias[i]} 0 <= i && i < len(alias) ==> plainAt(alias, i))) || result == dq(alias) || (len(alias) >= 2 && result == dq(replaceAll(substr(alias, 1, len(alias) - 1), "``", "`")))
+//@   loop 0
+//@     invariant plainSoFar: 0 <= rangepos && rangepos <= len(alias) && (forall i int :: {:pattern alias[i]} 0 <= i && i < rangepos ==> plainAt(alias, i))
